@@ -462,9 +462,13 @@ func c05boundary() []c05case {
 	return cs
 }
 
+func c05bigModuleSrc(n int) string {
+	return c05repeat(n, func(i int) string { return fmt.Sprintf("v%d := %d", i, i) }, "\n") + "\nreturn v0"
+}
+
 func c05bigModuleMap(n int) *ugo.ModuleMap {
 	mm := ugo.NewModuleMap()
-	mm.AddSourceModule("big", []byte(c05repeat(n, func(i int) string { return fmt.Sprintf("v%d := %d", i, i) }, "\n")+"\nreturn v0"))
+	mm.AddSourceModule("big", []byte(c05bigModuleSrc(n)))
 	return mm
 }
 
